@@ -164,7 +164,7 @@ class PullAndDispatch(Obligation):
 
     def __init__(self, ctx, k=2):
         self.k = k
-        self.desc = ('pull_and_dispatch_messages: one pull; every delivery of the pulled page is POSTed exactly once, in page order, and each is '
+        self.desc = ('pull_and_dispatch_messages: one pull; every delivery of the pulled page is POSTed exactly once and each is '
                      'acknowledged or nacked according to its own outcome; nothing is dropped; the round ends when all attempts ended')
         self.bounds = {'page': '<= %d deliveries' % k, 'status': 'all 100..=999 or transport error, per delivery', 'pacing timer': 'fires or not'}
         self.unroll = k + 4
@@ -243,43 +243,65 @@ class PullAndDispatch(Obligation):
                 outcomes[id(e[2])] = (li, z3.Or([e[1] == c for c in (102, 200, 201, 202, 204)]))
             elif e[0] == 'http.error':
                 outcomes[id(e[1])] = (li, z3.BoolVal(False))
-        for i, snd in enumerate(sends):
-            if i >= len(res['acks']):
-                break
+        # which delivery a POST is for: by the message its JSON document names (the spawned attempts may run in any order
+        # once the 5 ms pacing timer has fired)
+        I = z3.IntSort()
+        fmt_int, b64 = z3.Function('fmt_int', I, I), z3.Function('b64_STANDARD_enc_bytes', I, I)
+        ser_at = [(li, e) for li, e in enumerate(log) if e[0] == 'serde_json::to_string']
+        self._post_docs = []
+        for k, snd in enumerate(sends):
+            li_s = log.index(snd)
+            docs = [e for li, e in ser_at if li < li_s]
+            doc = docs[-1][1] if docs else None
+            which = None
+            if doc is not None:
+                try:
+                    pmsg = fld(ctx, doc, 'PushPayload', 'message')
+                    gid, gdata = fld(ctx, pmsg, 'PushPayloadMessage', 'message_id').tok, fld(ctx, pmsg, 'PushPayloadMessage', 'data').tok
+                except (ValueError, AttributeError, TypeError) as ex:
+                    raise Unsupported('push payload has an unexpected shape: %s' % ex)
+                for i, t in enumerate(res['toks']):
+                    mid, mdata = z3.Function('msg_id', I, I)(t), z3.Function('msg_data', I, I)(t)
+                    if z3.simplify(gid).eq(z3.simplify(fmt_int(mid))) or z3.simplify(gdata).eq(z3.simplify(b64(mdata))):
+                        which = i
+                        break
+            out.append(Claim('POST %d carries a message of the pulled page' % k, which is not None))
+            if which is None:
+                continue
+            self._post_docs.append((which, doc))
+            i = which
             a_i = res['acks'][i]
-            cnt = z3.Sum([z3.If(z3.And(c, x == a_i), 1, 0) for _, _, c, x in settled] or [z3.IntVal(0)])
-            out.append(Claim('delivery %d of the page is settled exactly once' % i, z3.Implies(n > i, cnt == 1)))
             oc = outcomes.get(id(snd[1]))
             if oc is None:
-                out.append(Claim('attempt %d ended before the round ended' % i, False))
+                out.append(Claim('the attempt for delivery %d ended before the round ended' % i, False))
                 continue
             li_o, accepted = oc
             acked = z3.Or([z3.And(c, x == a_i) for _, k_, c, x in settled if k_ == 'ack'] or [z3.BoolVal(False)])
             out.append(Claim('delivery %d: acknowledged iff its own attempt was accepted (else nacked)' % i, z3.Implies(n > i, acked == accepted)))
             # no waiting for the siblings: between the end of this attempt and its settlement no other attempt ends
-            mine = [li for li, _, c, x in settled if z3.is_true(z3.simplify(z3.And(c, x == a_i))) or (p.check(z3.Not(z3.And(c, x == a_i))) == z3.unsat)]
+            mine = [li for li, _, c, x in settled if p.check(z3.Not(z3.And(c, x == a_i))) == z3.unsat]
             # (only when the settlement itself was not kept waiting: a full mailbox may delay it past a sibling's answer)
             delayed = any(e[0] == 'pending' and e[1] in ('mpsc.send', 'oneshot.recv') for e in log[li_o:min(mine) if mine else len(log)])
             if mine and not delayed:
                 between = [l2 for k2, (l2, _) in outcomes.items() if k2 != id(snd[1]) and li_o < l2 < min(mine)]
                 out.append(Claim('delivery %d is settled as soon as its own attempt has ended, not after a sibling\'s answer' % i, len(between) == 0))
+        for i in range(len(res['acks'])):
+            a_i = res['acks'][i]
+            cnt = z3.Sum([z3.If(z3.And(c, x == a_i), 1, 0) for _, _, c, x in settled] or [z3.IntVal(0)])
+            out.append(Claim('delivery %d of the page is settled exactly once' % i, z3.Implies(n > i, cnt == 1)))
+            posted = sum(1 for w, _ in self._post_docs if w == i)
+            out.append(Claim('delivery %d of the page is POSTed exactly once' % i, z3.Implies(n > i, z3.BoolVal(posted == 1))))
         # what is POSTed for delivery i is the encoding of message i (data, both id spellings, attributes), for this subscription
         ser = [e for e in log if e[0] == 'serde_json::to_string']
         out.append(Claim('one JSON document per POST', len(ser) == len(sends)))
-        I = z3.IntSort()
-        fmt_int, b64 = z3.Function('fmt_int', I, I), z3.Function('b64_STANDARD_enc_bytes', I, I)
-        for i, e in enumerate(ser[:len(res['toks'])]):
-            pl = e[1]
-            try:
-                pmsg = fld(ctx, pl, 'PushPayload', 'message')
-                g = lambda f: fld(ctx, pmsg, 'PushPayloadMessage', f)
-                msg = res['toks'][i]
-                mid, mdata, mattr = [z3.Function(n_, I, I)(msg) for n_ in ('msg_id', 'msg_data', 'msg_attrs')]
-                out.append(Claim('POST %d carries message %d: base64 of its data, its id in both spellings, its attributes' % (i, i),
-                                 z3.Implies(n > i, z3.And(g('data').tok == b64(mdata), g('message_id').tok == fmt_int(mid), g('message_id_dupe').tok == fmt_int(mid),
-                                                          g('attributes').tok == mattr))))
-            except (ValueError, AttributeError, TypeError) as ex:
-                raise Unsupported('push payload has an unexpected shape: %s' % ex)
+        for i, pl in self._post_docs:
+            pmsg = fld(ctx, pl, 'PushPayload', 'message')
+            g = lambda f: fld(ctx, pmsg, 'PushPayloadMessage', f)
+            msg = res['toks'][i]
+            mid, mdata, mattr = [z3.Function(n_, I, I)(msg) for n_ in ('msg_id', 'msg_data', 'msg_attrs')]
+            out.append(Claim('the POST for delivery %d carries message %d: base64 of its data, its id in both spellings, its attributes' % (i, i),
+                             z3.Implies(n > i, z3.And(g('data').tok == b64(mdata), g('message_id').tok == fmt_int(mid), g('message_id_dupe').tok == fmt_int(mid),
+                                                      g('attributes').tok == mattr))))
         if len(res['toks']) >= 2:
             mattr = [z3.Function('msg_attrs', I, I)(t) for t in res['toks'][:2]]
             out.append(Cover('a message with attributes followed by one without', z3.And(n == 2, mattr[0] != 0, mattr[1] == 0)))
@@ -296,7 +318,7 @@ _obligations_c14 = obligations
 
 def obligations(ctx, cfg):
     pd = PullAndDispatch(ctx, 2)
-    pd.budget = 0 if cfg["tier"] == "quick" else 1
+    pd.budget = 0
     pd.no_timers = cfg['tier'] == 'quick'
     if pd.no_timers:
         pd.bounds = dict(pd.bounds, **{'pacing timer': 'never fires (quick tier)', 'select! start index': '0 (quick tier)'})
